@@ -1,5 +1,7 @@
 package tls
 
+import "errors"
+
 // This file is ADDED to package tls by the -overlay that /verif/bin/check builds with
 // (it is not part of /repo). It exposes private state that oracles need, read-only.
 
@@ -55,4 +57,26 @@ func VerifSessionTicketKeys(c *Config) TicketKeys {
 		out = append(out, k.ToPublic())
 	}
 	return out
+}
+
+// VerifSendKeyUpdate makes c send a TLS 1.3 KeyUpdate (optionally requesting one back) and
+// switches its outgoing traffic secret, exactly like the reply path of handleKeyUpdate.
+func VerifSendKeyUpdate(c *Conn, requestUpdate bool) error {
+	cipherSuite := cipherSuiteTLS13ByID(c.cipherSuite)
+	if cipherSuite == nil {
+		return errors.New("verif: not a TLS 1.3 connection")
+	}
+	c.out.Lock()
+	defer c.out.Unlock()
+	msg := &keyUpdateMsg{updateRequested: requestUpdate}
+	msgBytes, err := msg.marshal()
+	if err != nil {
+		return err
+	}
+	if _, err = c.writeRecordLocked(recordTypeHandshake, msgBytes); err != nil {
+		return err
+	}
+	newSecret := cipherSuite.nextTrafficSecret(c.out.trafficSecret)
+	c.out.setTrafficSecret(cipherSuite, QUICEncryptionLevelInitial, newSecret)
+	return nil
 }
